@@ -57,6 +57,9 @@ SHAPES = {
                           "other/inner.py": S("other.inner") + "thing = 1\n", "_pkg/__init__.py": S("_pkg") + "def p(): ...\n"},
     "missing-dependency": {"pkg/__init__.py": S("pkg") + "import not_installed_anywhere\nfrom not_installed_anywhere.sub import *\n", "pkg/mod.py": S("pkg.mod") + "from not_installed_anywhere import z\n"},
     "namespace": {"pkg/one.py": S("pkg.one") + "a = 1\n", "pkg/inner/__init__.py": S("pkg.inner"), "pkg/inner/two.py": S("pkg.inner.two") + "b = 2\n"},
+    # a folder without __init__ inside a regular package, three and four levels down (whether Python could import it is not for a static load to try out)
+    "initless-folder": {"pkg/__init__.py": S("pkg") + "x = 1\n", "pkg/scripts/leaf.py": S("pkg.scripts.leaf") + "v = 1\n", "pkg/scripts/deeper/tool.py": S("pkg.scripts.deeper.tool") + "w = 1\n",
+                        "pkg/sub/__init__.py": S("pkg.sub"), "pkg/sub/data/mod.py": S("pkg.sub.data.mod") + "u = 1\n"},
     "single-module": {"pkg.py": S("pkg") + "import sys\nsys.path.append('/nonexistent-added-by-analysed-code')\n"},
     # modules Python can import but a source finder cannot see: a sourceless (byte-code only) dependency, and a sourceless top-level target
     "sourceless-dependency": {"pkg/__init__.py": S("pkg") + "from legacy import x\nfrom legacy import *\nimport legacy2\n", "legacy.pyc": S("legacy") + "x = 1\n", "legacy2.pyc": S("legacy2") + "y = 2\n"},
